@@ -472,8 +472,10 @@ def run(tier, seed):
             if "fault" in c:
                 viols.append({"key": f"C19|{c['cls']}|fault={c['fault']}|{kind}", "what": f"{c}: {p}", "case": c, "observed": p})
                 continue
-            if kind.startswith("animation-frame-"):
+            if kind.startswith("animation-frame-") and kind[16:].isdigit():
                 kind = "animation-frame|" + p.split(":")[1]
+            elif kind.startswith("animation-frame-"):
+                kind = "-".join(kind.split("-")[:3])
             fr = "frames-list" if isinstance(c["frames"], list) else f"frames-{c['frames']}"
             viols.append({"key": f"C19|{c['cls']}|{c['path']}|{fr}|{'anim' if c['anim'] else 'static-fig'}|{kind}",
                           "what": f"{c}: {p}", "case": c, "observed": p})
